@@ -4,12 +4,13 @@
 set -e
 cd "$(dirname "$0")"
 export GOFLAGS=-mod=mod GOPROXY=off GOSUMDB=off GOTOOLCHAIN=local
-if grep -rnE '\b(Admitted|admit|Axiom|Parameter|Conjecture|Admit Obligations)\b|Unset Guard|bypass_check|type-in-type|impredicative-set' coq/Lib coq/Model coq/Proofs coq/Props --include='*.v' | grep -v '^\S*:[0-9]*:\s*(\*' ; then
+if grep -rnE '\b(Admitted|admit|Axiom|Parameter|Conjecture|Admit Obligations)\b|Unset Guard|bypass_check|type-in-type|impredicative-set' coq/Lib coq/Spec coq/Model coq/Proofs coq/Props coq/templates --include='*.v' | grep -v '^\S*:[0-9]*:\s*(\*' ; then
   echo "forbidden vernacular found" >&2; exit 1
 fi
+python3 lib/mkspec.py --check || { echo "coq/Spec/RegisterSpec.v is out of sync with spec/registers.json" >&2; exit 1; }
 mkdir -p coq/gen evidence replays harness/bin
 (cd coq && ./mk.sh)
 cp /repo/go.sum harness/go.sum
 (cd harness && for d in cmd/*/; do n=$(basename $d); go build -tags verif -o bin/$n ./cmd/$n || exit 1; done)
-if [ -d tools/go2coq ]; then cp /repo/go.sum tools/go2coq/go.sum; (cd tools/go2coq && go build -o ../../harness/bin/go2coq . ); fi
+(cd tools/go2coq && go build -o ../../harness/bin/go2coq . )
 echo "setup ok"
